@@ -295,7 +295,11 @@ func printStruct(sb *stringBuilder, s *parser.StructLike, structType string) {
 
 func printConstTypedValue(sb *stringBuilder, ctv *parser.ConstTypedValue) {
 	if ctv.Double != nil {
-		sb.writeString(strconv.FormatFloat(*ctv.Double, 'f', -1, 64))
+		s := strconv.FormatFloat(*ctv.Double, 'f', -1, 64)
+		if !strings.Contains(s, ".") && (*ctv.Double >= 1<<63 || *ctv.Double < -(1<<63)) {
+			s += ".0" // would otherwise be re-read as an integer literal that overflows int64
+		}
+		sb.writeString(s)
 	} else if ctv.Int != nil {
 		sb.writeString(fmt.Sprintf("%d", *ctv.Int))
 	} else if ctv.Literal != nil {
